@@ -55,7 +55,7 @@ class ConnEnv(object):
         self.is_reset = False
         self.is_eof = False
         self.peer_got = bytearray()
-        self.calls = []           # ('r', n, len(result)|exc) / ('w', len(data), accepted|exc)
+        self.calls = []           # ('r', n, len(result)|exc, clock) / ('w', len(data), accepted|exc, clock); clock = virtual time when the entry was made
         self.over_request = 0     # reads asking for more than remains in the current inbound frame
         self._frame_left = 0      # bytes left of the current inbound frame (header or payload), for the C03 over-request flag
         self._frame_state = "hdr"
@@ -144,7 +144,7 @@ class Link(object):
             raise SimTransportError("closed or reset")
         if c.is_eof:
             self.clock.now += c.dt
-            c.calls.append(("r", n, 0))
+            c.calls.append(("r", n, 0, self.clock.now))
             if len(c.calls) > 400000:
                 raise SimHang()          # watchdog: an endless loop of empty reads in zero virtual time
             return b""
@@ -152,27 +152,27 @@ class Link(object):
         if f is not None:
             c.faults.remove(f)
             if f[2] == "timeout":
-                c.calls.append(("r", n, "timeout"))
+                c.calls.append(("r", n, "timeout", self.clock.now))
                 self.wait_timeout(tt)
             elif f[2] == "reset":
                 c.is_reset = True
-                c.calls.append(("r", n, "reset"))
+                c.calls.append(("r", n, "reset", self.clock.now))
                 raise SimTransportError("reset")
             else:
                 c.is_eof = True
                 self.clock.now += c.dt
-                c.calls.append(("r", n, 0))
+                c.calls.append(("r", n, 0, self.clock.now))
                 return b""
         if c.frag_left is None and c.frags:
             c.frag_left = c.frags.pop(0)
         if c.frag_left == 0:
             c.frag_left = None
             self.clock.now += c.dt
-            c.calls.append(("r", n, 0))
+            c.calls.append(("r", n, 0, self.clock.now))
             c._track_frames(n, b"")
             return b""
         if not c.pending:
-            c.calls.append(("r", n, "timeout"))
+            c.calls.append(("r", n, "timeout", self.clock.now))
             c._track_frames(n, b"")
             self.wait_timeout(tt)
         k = min(n, len(c.pending))
@@ -187,7 +187,7 @@ class Link(object):
         del c.pending[:k]
         c.in_off += k
         self.clock.now += c.dt
-        c.calls.append(("r", n, k))
+        c.calls.append(("r", n, k, self.clock.now))
         c._track_frames(n, out)
         return out
 
@@ -200,12 +200,27 @@ class Link(object):
         if f is not None:
             c.faults.remove(f)
             if f[2] == "timeout":
-                c.calls.append(("w", len(data), "timeout"))
+                c.calls.append(("w", len(data), "timeout", self.clock.now))
                 self.wait_timeout(tt)
             c.is_reset = True
-            c.calls.append(("w", len(data), "reset"))
+            c.calls.append(("w", len(data), "reset", self.clock.now))
             raise SimTransportError("reset")
         lim = c.fault_limit("out", c.out_off)
+        c.wcount = getattr(c, "wcount", 0) + 1
+        if (c.wcount - 1) in c.env.get("ozeros", ()) and not c.wnone:
+            # a write call that accepts nothing and says so (a full send buffer): legal for a transport, not expressible in the model
+            self.clock.now += max(c.dt, 1)
+            c.calls.append(("w", len(data), 0, self.clock.now))
+            return 0
+        if (c.wcount - 1) in c.env.get("olate", ()) and tt is not None:
+            # the transport takes the data (it will reach the peer) but its completion signal comes too late: the transport's timeout error
+            # is raised although everything was sent -- what TcpTransportAsync does when drain() outlasts the timeout
+            c.peer_got += data
+            c.out_off += len(data)
+            c.calls.append(("w", len(data), "late-timeout", self.clock.now))
+            c.sim.feed(data)
+            c.absorb_sim_output()
+            self.wait_timeout(tt)
         if c.wnone:
             k = len(data)
             ret = None
@@ -223,7 +238,7 @@ class Link(object):
         c.peer_got += data[:k]
         c.out_off += k
         self.clock.now += c.dt
-        c.calls.append(("w", len(data), k))
+        c.calls.append(("w", len(data), k, self.clock.now))
         c.sim.feed(data[:k])
         c.absorb_sim_output()
         return ret
@@ -247,6 +262,70 @@ class MemTransport(BaseTransport):
 
     def bulk_write(self, data, transport_timeout_s):
         return self.link.bulk_write(data, transport_timeout_s)
+
+
+class SimDeadlock(SimHang):
+    """A lock that is already held was requested without a timeout by the only thread / task there is: the real code would block forever."""
+
+
+class GuardLock(object):
+    """threading.Lock for single-threaded sessions: a blocking acquire of a held lock raises instead of hanging the harness."""
+
+    def __init__(self, name):
+        import threading
+        self.name = name
+        self._l = threading.Lock()
+
+    def locked(self):
+        return self._l.locked()
+
+    def acquire(self, blocking=True, timeout=-1):
+        if self._l.locked():
+            if not blocking or (timeout is not None and timeout >= 0):
+                return False
+            raise SimDeadlock("lock %s is still held" % self.name)
+        return self._l.acquire(False)
+
+    def release(self):
+        self._l.release()
+
+    def __enter__(self):
+        self.acquire()
+        return self
+
+    def __exit__(self, *a):
+        self._l.release()
+        return False
+
+
+class GuardAsyncLock(object):
+    """asyncio.Lock counterpart of GuardLock for single-task sessions."""
+
+    def __init__(self, name):
+        self.name = name
+        self._held = False
+
+    def locked(self):
+        return self._held
+
+    async def acquire(self):
+        if self._held:
+            raise SimDeadlock("lock %s is still held" % self.name)
+        self._held = True
+        return True
+
+    def release(self):
+        if not self._held:
+            raise RuntimeError("Lock is not acquired.")
+        self._held = False
+
+    async def __aenter__(self):
+        await self.acquire()
+        return None
+
+    async def __aexit__(self, *a):
+        self.release()
+        return False
 
 
 class MemTransportAsync(BaseTransportAsync):
